@@ -9,7 +9,7 @@ from ..absint import Interp
 from ..model import AnalysisError, FuncInfo, NotConst, bind_args, dotted, norm, walk_no_nested
 from ..regexauto import CLASSES, alternative_classes, token_sets, uncovered_after
 from ..report import rule
-from ..util import calls_named, cfg_of, is_const, is_name, key, kw, names_in, strip_pre
+from ..util import allargs, calls_named, cfg_of, is_const, is_name, key, kw, names_in, strip_pre
 
 
 def _snake_pattern(ctx) -> str:
@@ -26,7 +26,7 @@ def _snake_pattern(ctx) -> str:
     if len(calls) != 1:
         raise AnalysisError("str_to_snake_case: re.findall call not found")
     try:
-        pat = ctx.repo.const_eval(fi.module, calls[0].args[0], env)
+        pat = ctx.repo.const_eval(fi.module, allargs(calls[0])[0], env)
     except NotConst as exc:
         raise AnalysisError(f"str_to_snake_case: pattern is not a constant ({exc})")
     if not isinstance(pat, str):
@@ -49,7 +49,7 @@ def c18_r1(ctx):
     # the tokens are joined unchanged except for case
     rets = [n for n in fi.node.body if isinstance(n, ast.Return)]
     call = calls_named(fi.node, "re.findall")[0]
-    good = len(rets) == 1 and norm(call.args[1]) == p
+    good = len(rets) == 1 and norm(allargs(call)[1]) == p
     if good:
         env = {st.targets[0].id: st.value for st in fi.node.body if isinstance(st, ast.Assign) and isinstance(st.targets[0], ast.Name)}
         rv = rets[0].value
@@ -210,8 +210,8 @@ def c18_r8(ctx):
                             return False
                         subj = kind = None
                         ee = strip_pre(e)
-                        if isinstance(ee, ast.Call) and dotted(ee.func) in ("iskeyword", "keyword.iskeyword") and len(ee.args) == 1:
-                            subj, kind = norm(ee.args[0]), "keyword"
+                        if isinstance(ee, ast.Call) and dotted(ee.func) in ("iskeyword", "keyword.iskeyword") and len(allargs(ee)) == 1:
+                            subj, kind = norm(allargs(ee)[0]), "keyword"
                         elif isinstance(ee, ast.Compare) and len(ee.ops) == 1 and isinstance(ee.ops[0], (ast.In, ast.NotIn)) and "PYDANTIC_RESERVED_FIELD_NAMES" in norm(ee.comparators[0]):
                             subj, kind = norm(ee.left), "reserved"
                         if kind is None:
@@ -357,7 +357,7 @@ def c19_r2(ctx):
         f2 = repo.func(fk)
         cs = calls_named(f2.node, "load_graphql_files_from_path")
         ps = calls_named(f2.node, "parse")
-        good = len(cs) == 1 and len(ps) == 1 and isinstance(ps[0].args[0], ast.Name)
+        good = len(cs) == 1 and len(ps) == 1 and isinstance(allargs(ps[0])[0], ast.Name)
         ctx.check(good, key(f2, "source"), "text is not loaded through load_graphql_files_from_path and parsed as one document", f2.loc(), okmsg=f"{f2.qualname}: one document from all files")
 
 
@@ -419,7 +419,7 @@ def c19_r4(ctx):
     good = len(posts) == 1
     if good:
         p = posts[0]
-        good = norm(p.args[0] if p.args else kw(p, "url")) == "url" and norm(kw(p, "headers") or ast.Constant(0)) == "headers" and norm(kw(p, "verify") or ast.Constant(0)) == "verify_ssl"
+        good = norm(allargs(p)[0] if allargs(p) else kw(p, "url")) == "url" and norm(kw(p, "headers") or ast.Constant(0)) == "headers" and norm(kw(p, "verify") or ast.Constant(0)) == "verify_ssl"
         j = kw(p, "json")
         good = good and isinstance(j, ast.Dict) and norm(j.keys[0]) == "'query'" and norm(j.values[0]).startswith("get_introspection_query(")
     ctx.check(good, key(fi, "request"), "introspection request does not post the introspection query to url with the given headers and verify flag", fi.loc(), okmsg="httpx.post(url, json={query}, headers=headers, verify=verify_ssl)")
